@@ -91,13 +91,16 @@ class CodeGenerator:
             cval = self.context.eval_const(ival)
             cval = self.context.pack_float(cval, bits=typ.bits)
             return cval
-        elif isinstance(typ, ast.SignedIntegerType):
+        elif isinstance(typ, ast.IntegerType):
+            signed = isinstance(typ, ast.SignedIntegerType)
             cval = self.context.eval_const(ival)
-            cval = self.context.pack_int(cval, bits=typ.bits, signed=True)
-            return cval
-        elif isinstance(typ, ast.UnsignedIntegerType):
-            cval = self.context.eval_const(ival)
-            cval = self.context.pack_int(cval, bits=typ.bits, signed=False)
+            low = -(1 << (typ.bits - 1)) if signed else 0
+            high = (1 << (typ.bits - 1 if signed else typ.bits)) - 1
+            if not isinstance(cval, int) or not low <= cval <= high:
+                raise SemanticError(
+                    f"Initial value {cval} does not fit in {typ}", ival.loc
+                )
+            cval = self.context.pack_int(cval, bits=typ.bits, signed=signed)
             return cval
 
     def gen_globals(self, module):
